@@ -109,6 +109,7 @@ static void scalar_history(const char* tn, const std::string& prefix, std::uint6
     const unsigned W = sizeof(T);
     Rng r(seed * 31 + W * 2 + (K == 'i'));
     set_label(tn, "denominator");
+    unsigned shift_tick = 0;
     for (T d : divisors<T>(r)) {
         typedef avel::Denominator<T> D;
         out.boundary();
@@ -134,6 +135,45 @@ static void scalar_history(const char* tn, const std::string& prefix, std::uint6
             std::fprintf(out.f, "{\"e\":\"div\",\"id\":%d,\"form\":\"div\",\"n\":%s,\"q\":%s,\"r\":%s,\"sig\":\"%s\"}\n", id, flat(&n, W).c_str(), flat(&q1, W).c_str(), flat(&r1, W).c_str(), signame(s1));
             std::fprintf(out.f, "{\"e\":\"div\",\"id\":%d,\"form\":\"ops\",\"n\":%s,\"q\":%s,\"r\":%s,\"sig\":\"%s\"}\n", id, flat(&n, W).c_str(), flat(&q2, W).c_str(), flat(&r2, W).c_str(), signame(s2));
             std::fprintf(out.f, "{\"e\":\"div\",\"id\":%d,\"form\":\"eq\",\"n\":%s,\"q\":%s,\"r\":%s,\"sig\":\"%s\"}\n", id, flat(&n, W).c_str(), flat(&q3, W).c_str(), flat(&r3, W).c_str(), signame(s3));
+        }
+        // Beyond C14 (events flagged "x":1 are reported as EXTRA, never as a violation): operator<< / operator>> of a
+        // denominator multiply / divide the divisor by 2^s; only amounts that keep the divisor exact are issued
+        // (the documentation clamps larger ones).
+        if (++shift_tick % (g_tier ? 1 : 3) == 0) {
+            typedef typename std::make_unsigned<T>::type UT;
+            int room_l = 0, room_r = 0;
+            {
+                T probe = d;
+                while (room_l < int(8 * W) && T(T(UT(probe) << 1) >> 1) == probe && T(UT(probe) << 1) != 0) { probe = T(UT(probe) << 1); ++room_l; }
+                UT u = UT(d);
+                while (room_r < int(8 * W) && (u & 1) == 0) { u >>= 1; ++room_r; }
+            }
+            for (int dir = 0; dir < 2; ++dir) {
+                int room = dir ? room_r : room_l;
+                if (room == 0) continue;
+                int s = 1 + int(r.next() % unsigned(room));
+                T sv = T(s);
+                opaque(sv);
+                alignas(D) unsigned char st2[sizeof(D)];
+                D* sh = nullptr;
+                int sg2 = guarded([&] { sh = new (st2) D(dir ? (*obj >> sv) : (*obj << sv)); });
+                int id2 = out.next_id++;
+                std::fprintf(out.f, "{\"e\":\"dshift\",\"id\":%d,\"from\":%d,\"o\":\"%s\",\"s\":%s,\"x\":1,\"sig\":\"%s\"}\n", id2, id, dir ? "shr" : "shl", flat(&sv, W).c_str(), signame(sg2));
+                if (sg2) continue;
+                T nd = dir ? T(d >> s) : T(UT(d) << s);
+                T v2 = T(0);
+                sg2 = guarded([&] { v2 = sh->value(); });
+                std::fprintf(out.f, "{\"e\":\"value\",\"id\":%d,\"v\":%s,\"x\":1,\"sig\":\"%s\"}\n", id2, flat(&v2, W).c_str(), signame(sg2));
+                std::vector<T> ns = numerators<T>(nd, r);
+                for (std::size_t i = 0; i < ns.size(); i += (ns.size() / 24 + 1)) {
+                    T n = ns[i];
+                    if (undefined_pair(n, nd)) continue;
+                    opaque(n);
+                    T q = 0, rem = 0;
+                    int s4 = guarded([&] { auto x = div(n, *sh); q = x.quot; rem = x.rem; });
+                    std::fprintf(out.f, "{\"e\":\"div\",\"id\":%d,\"form\":\"div\",\"n\":%s,\"q\":%s,\"r\":%s,\"x\":1,\"sig\":\"%s\"}\n", id2, flat(&n, W).c_str(), flat(&q, W).c_str(), flat(&rem, W).c_str(), signame(s4));
+                }
+            }
         }
     }
 }
